@@ -1,5 +1,7 @@
 import PharmpyProofs.C06.Lemmas
+import PharmpyProofs.C06.EffLemmas
 import PharmpyModel.Generated.EqHash
+import PharmpyModel.Generated.Effects
 /-
   C06 — Models are immutable values; equal means equal.  Property theorems only.
 
@@ -115,5 +117,87 @@ example :
       (.cons (.atom "CL") (.cons (.atom "0.1") (.cons (.atom "0") (.cons (.atom "inf") (.cons (.atom "False") .nil)))))) .nil)) .nil)
     lawful eqHashTable a = true ∧ eqV eqHashTable a a = true := by
   decide +kernel
+
+/-! ## B. no in-place write reaches an argument (effect language, T3b) -/
+
+namespace Eff
+
+/-- Soundness of the effect checker, for every function abstraction `f`: if `check f` holds then
+    along **every** sequence of statements drawn from the body (any order, repetition, prefix —
+    i.e. whichever branches are taken, however often loops run, wherever an exception cuts the
+    execution short), from every heap in which only the parameters are bound to the `K`
+    argument-owned objects, every argument-owned object keeps its contents. -/
+theorem effect_checker_sound (f : Fn) (hc : check f = true)
+    (tr : List Stmt) (htr : ∀ s ∈ tr, s ∈ f.body)
+    (σ : State) (K : Nat) (hK : K ≤ σ.next)
+    (hinit : ∀ x o, σ.env x = some o → o < K → x ∈ f.params) :
+    ∀ o < K, (run tr σ).ver o = σ.ver o := by
+  unfold check at hc
+  simp only [Bool.and_eq_true] at hc
+  obtain ⟨⟨hp, hcl⟩, hw⟩ := hc
+  have hi : Inv (taint f) K σ := by
+    refine ⟨hK, ?_⟩
+    intro x o hx ho
+    have := (List.all_eq_true.mp hp) x (hinit x o hx ho)
+    simpa using this
+  exact (run_sound f.body (taint f) K hcl hw tr htr σ hi).2
+
+/-- The same for every prefix-closed observation: the invariant also holds in the final state, so
+    the guarantee composes with a continuation. -/
+theorem effect_checker_sound_inv (f : Fn) (hc : check f = true)
+    (tr : List Stmt) (htr : ∀ s ∈ tr, s ∈ f.body)
+    (σ : State) (K : Nat) (hK : K ≤ σ.next)
+    (hinit : ∀ x o, σ.env x = some o → o < K → x ∈ f.params) :
+    K ≤ (run tr σ).next ∧ ∀ x o, (run tr σ).env x = some o → o < K → x ∈ taint f := by
+  unfold check at hc
+  simp only [Bool.and_eq_true] at hc
+  obtain ⟨⟨hp, hcl⟩, hw⟩ := hc
+  have hi : Inv (taint f) K σ := by
+    refine ⟨hK, ?_⟩
+    intro x o hx ho
+    have := (List.all_eq_true.mp hp) x (hinit x o hx ho)
+    simpa using this
+  exact (run_sound f.body (taint f) K hcl hw tr htr σ hi).1
+
+/-- The checker is not vacuous and not trivially accepting: the shape of `add_admid` at /repo
+    2f7a606 (`dataset = model.dataset; dataset["ADMID"] = …`) is rejected, and executing it
+    changes the argument-owned object. -/
+def aliasThenWrite : Fn :=
+  { name := "add_admid", params := ["model"], body := [.alias "dataset" "model", .write "dataset"] }
+
+theorem alias_then_write_witness :
+    check aliasThenWrite = false ∧
+    (run aliasThenWrite.body { env := fun n => if n = "model" then some 0 else none, ver := fun _ => 0, next := 1 }).ver 0 ≠ 0 := by
+  refine ⟨by decide, by decide⟩
+
+/-- … while the repaired shape (`dataset = model.dataset.copy(); dataset["ADMID"] = …`) is accepted. -/
+example : check { name := "add_admid", params := ["model"], body := [.fresh "dataset", .write "dataset"] } = true := by
+  decide
+
+end Eff
+
+/-- Public functions whose effect program is **not** proved free of writes to arguments.
+    `add_admid`, `add_cmt`: genuine in-place writes to the argument model's DataFrame (known findings).
+    The others are flagged through imprecision of the flow-insensitive abstraction and are covered by
+    the snapshot monitors only: `x = [] if x is None` followed by `x.append` (add_allometry,
+    create_joint_distribution, plot_abs_cwres_vs_ipred, plot_cwres_vs_idv), `df = df.copy()` followed by
+    stores (deidentify_data), `option *= n` on an element of a list argument (add_iiv — this one does
+    lengthen a caller's one-element list in place, a non-model argument), a set obtained from a
+    computed property and updated (remove_covariate_effect), a frame derived inside a helper and
+    then extended (plot_dv_vs_ipred, plot_dv_vs_pred, plot_vpc). -/
+def notProvedPure : List String :=
+  ["add_admid", "add_cmt", "add_allometry", "add_iiv", "create_joint_distribution", "deidentify_data",
+   "plot_abs_cwres_vs_ipred", "plot_cwres_vs_idv", "plot_dv_vs_ipred", "plot_dv_vs_pred",
+   "remove_covariate_effect", "plot_vpc"]
+
+/-- Every other public function of `pharmpy.modeling` (table regenerated from /repo on every run)
+    passes the checker; with `effect_checker_sound` no statement sequence of its body writes an
+    object owned by an argument.  A new `df[c] = …` on an alias of `model.dataset` breaks this. -/
+theorem all_public_functions_pass :
+    ∀ f ∈ Generated.effects, f.name ∉ notProvedPure → Eff.check f = true := by
+  decide +kernel
+
+/-- Non-vacuity: the table is large and nothing is left unanalysed. -/
+example : 200 ≤ Generated.effects.length ∧ Generated.unanalysed = [] := by decide +kernel
 
 end Pharmpy.C06
